@@ -6,6 +6,8 @@
 
 #include <atomic>
 
+#include "verif_hook.h"
+
 namespace yakushima {
 
 using Epoch = std::uint64_t;
